@@ -305,7 +305,18 @@ class NonSeekableSink(_SinkBase):
                     from .director import TaggedBlockingIO
 
                     raise TaggedBlockingIO(f['tag'], k)
-                raise_for(f, d, key, 'before')
+                if f['kind'] == 'stall':
+                    # the reader of the stream is busy for a while: the write simply takes seconds (nothing fails)
+                    d.note_raised(f, key, 'before', stalled=f.get('secs', 2.5))
+                    with d._lock:
+                        d.sleeping += 1
+                    try:
+                        time.sleep(f.get('secs', 2.5))
+                    finally:
+                        with d._lock:
+                            d.sleeping -= 1
+                else:
+                    raise_for(f, d, key, 'before')
             off = self.total
             self.chunks.append(bytes(data))
             self.total += len(data)
